@@ -68,7 +68,11 @@ Step(cfg, g, e, obs) ==
          ELSE IF e.ok THEN [base EXCEPT !.phase = "synced", !.synced = TRUE] ELSE base
     [] e.op = "attach" ->
          IF e.none THEN base
-         ELSE IF e.ok THEN [base EXCEPT !.phase = "streaming", !.pend = <<>>] ELSE [base EXCEPT !.phase = "down", !.pend = <<>>]
+         ELSE IF e.ok THEN [base EXCEPT !.phase = "streaming",
+                                        \* a change the active made and pushed while this attachment was being set up (after
+                                        \* the stream was registered) is owed on this stream
+                                        !.pend = IF e.middid THEN <<[k |-> e.midop, id |-> e.midid, v |-> e.midv]>> ELSE <<>>]
+              ELSE [base EXCEPT !.phase = "down", !.pend = <<>>]
     [] e.op = "disconnect" -> [base EXCEPT !.phase = "down", !.pend = <<>>]
     [] e.op = "deliver" ->
          IF e.none \/ g.phase # "streaming" THEN base
